@@ -41,6 +41,7 @@ func violatingTable() []violating {
 		s("email", strings.Repeat("a", 300)), s("in=(a/b)", strings.Repeat("ab", 200)), s("prefix=zz", strings.Repeat("y", 1000)), s("unique", strings.Repeat("a,", 300)), s("ints", strings.Repeat("1,", 300)+"x"),
 		s("date", strings.Repeat("1996-01-01", 30)), s("ip", strings.Repeat("1.", 200)), s("idcard", strings.Repeat("1", 257)),
 		s("required", ""), s("file", "DIR"), s("dir", "FILE"), s("file", "MISSING"), s("dir", "MISSING"),
+		s("file", "THROUGHFILE"), s("dir", "THROUGHFILE"), s("file", "LONGNAME"), s("dir", "LONGNAME"),
 		{item: "re='^a$'", t: desc.Scalar("string"), v: desc.Str("b"), re: "^a$"},
 		// alternation: the pattern itself contains the character that starts a message
 		{item: "re='^(yes|no)$'", t: desc.Scalar("string"), v: desc.Str("maybe"), re: "^(yes|no)$"},
@@ -130,6 +131,10 @@ func genC15Message(t *rapid.T) (*ScalarCase, string, string) {
 		c.Val = desc.Str(fsPaths.file)
 	case "MISSING":
 		c.Val = desc.Str(fsPaths.missing)
+	case "THROUGHFILE": // a path that runs through a regular file: it names nothing (and the system says so in other words than for a missing path)
+		c.Val = desc.Str(fsPaths.throughFile)
+	case "LONGNAME": // an element longer than any file system allows
+		c.Val = desc.Str(fsPaths.longName)
 	}
 	item := v.item
 	withMsg := rapid.IntRange(0, 5).Draw(t, "withMsg") > 0
